@@ -30,5 +30,14 @@ b, e = "<!-- property-table:begin -->", "<!-- property-table:end -->"
 if b in s:
     s = s[:s.index(b) + len(b)] + "\n" + "\n".join(table) + "\n" + s[s.index(e):]
     open("/verif/DESIGN.md", "w").write(s)
+import subprocess
+nfix = int(subprocess.run("git -C /repo log --oneline | grep -c ' fix:'", shell=True, capture_output=True, text=True).stdout.strip() or 0)
+tot = ("In total %d `fix:` commits are in /repo; the known-findings files list %d repaired finding signatures "
+       "(several signatures can belong to one defect, and a defect can be seen by two properties) and %d open ones.\n" % (nfix, nsig_fixed, nopen))
+s = open("/verif/DESIGN.md").read()
+b2, e2 = "<!-- totals:begin -->", "<!-- totals:end -->"
+if b2 in s:
+    s = s[:s.index(b2) + len(b2)] + "\n" + tot + s[s.index(e2):]
+    open("/verif/DESIGN.md", "w").write(s)
 print("\n".join(table))
 print("fix commits referenced:", len(tot_fixed), "fixed entries:", nsig_fixed, "open findings:", nopen)
